@@ -642,6 +642,25 @@ class OpsMixin:
                         return self.wrap_int(other % (1 << width))
                     return self.wrap_int(((other / (1 << low)) % (1 << width)) * (1 << low))
             raise Unsupported(f"& with non-contiguous or symbolic mask in math-int mode (line {self.lineno})")
+        if op in ("BitOr", "BitXor") and not (cb is not None and _pow2_exp(cb) is not None) and not (ca is not None and _pow2_exp(ca) is not None):
+            # x | y == x ^ y == x + y when the operands occupy disjoint bit ranges: find k with
+            # (hi mod 2^k == 0 and 0 <= lo < 2^k) VALID under the path condition (checked by the solver)
+            for hi, lo in ((za, zb), (zb, za)):
+                for k in range(1, 65):
+                    cond = z3.And(hi % (1 << k) == 0, lo >= 0, lo < (1 << k), hi >= 0)
+                    if not self.run.feasible(z3.Not(cond)):
+                        return self.wrap_int(hi + lo)
+            # general case: both operands provably in [0, 2^K) for a small K -> bitwise definition
+            for K in (8, 16, 32):
+                bound = z3.And(za >= 0, za < (1 << K), zb >= 0, zb < (1 << K))
+                if not self.run.feasible(z3.Not(bound)):
+                    total = z3.IntVal(0)
+                    for i in range(K):
+                        ba, bb = (za / (1 << i)) % 2, (zb / (1 << i)) % 2
+                        bit = z3.If(z3.Or(ba == 1, bb == 1), 1, 0) if op == "BitOr" else z3.If(ba != bb, 1, 0)
+                        total = total + bit * (1 << i)
+                    return self.wrap_int(total)
+            raise Unsupported(f"| / ^ on operands whose bit ranges are not provably disjoint or bounded (math-int mode, line {self.lineno})")
         if op == "BitOr" and ((cb is not None and _pow2_exp(cb) is not None) or (ca is not None and _pow2_exp(ca) is not None)):
             bit, other = (cb, za) if cb is not None and _pow2_exp(cb) is not None else (ca, zb)
             k = _pow2_exp(bit)
@@ -725,6 +744,10 @@ class OpsMixin:
         if isinstance(a, num) and isinstance(b, num):
             if isinstance(a, (int, float)) and isinstance(b, (int, float)):
                 return {"<": a < b, "<=": a <= b, ">": a > b, ">=": a >= b, "==": a == b, "!=": a != b}[sym]
+            if isinstance(a, float) and a.is_integer():
+                a = int(a)
+            if isinstance(b, float) and b.is_integer():
+                b = int(b)
             if isinstance(a, float) or isinstance(b, float):
                 raise Unsupported("float comparison with a symbolic value")
             za, zb = self.to_z3(a, "int"), self.to_z3(b, "int")
